@@ -1067,6 +1067,8 @@ theorem evolves_step (s : State) (op : Op) : Evolves s (step s op).1 := by
   | jump d =>
     exact evolves_of_rids rfl rfl (by simp [step]) (RidsFrom.refl _ _) (fun _ h => h) (grows_of_eq rfl rfl)
   | gate b => exact evolves_of_rids rfl rfl (Nat.le_refl _) (RidsFrom.refl _ _) (fun _ h => h) (grows_of_eq rfl rfl)
+  | sessionDestroyed => exact evolves_of_rids rfl rfl (Nat.le_refl _) (RidsFrom.refl _ _) (fun _ h => h) (grows_of_eq rfl rfl)
+  | sessionInitialized => exact evolves_of_rids rfl rfl (Nat.le_refl _) (RidsFrom.refl _ _) (fun _ h => h) (grows_of_eq rfl rfl)
   | settle => exact evolves_settle s
   | tick => exact evolves_tick s
   | sendDone tk ok =>
@@ -1225,6 +1227,8 @@ theorem sinv_step {s : State} (op : Op) (h : SInv s) (hw : NoWrap (step s op).1)
   | wlInterval n => exact sinv_congr (sinv_cancelWishlist h) rfl rfl rfl rfl rfl rfl rfl rfl
   | serverClosing => exact sinv_cancelWishlist h
   | gate b => exact sinv_congr h rfl rfl rfl rfl rfl rfl rfl rfl
+  | sessionDestroyed => exact sinv_congr h rfl rfl rfl rfl rfl rfl rfl rfl
+  | sessionInitialized => exact sinv_congr h rfl rfl rfl rfl rfl rfl rfl rfl
   | settle => exact (ok_settle h hw).1
   | tick => exact (ok_tick h hw).1
   | jump d =>
@@ -1346,6 +1350,8 @@ theorem step_obs {s : State} (op : Op) (h : SInv s) (hw : NoWrap (step s op).1) 
   | serverClosing => intro x hx; cases hx
   | jump d => intro x hx; cases hx
   | gate b => intro x hx; cases hx
+  | sessionDestroyed => intro x hx; cases hx
+  | sessionInitialized => intro x hx; cases hx
   | sendDone tk ok =>
     intro x hx
     simp only [step] at hx
@@ -2105,6 +2111,8 @@ theorem cancelTarget_complete (s : State) (op : Op) :
   | serverClosing => exact hsame
   | jump d => exact hsame
   | gate b => exact hsame
+  | sessionDestroyed => exact hsame
+  | sessionInitialized => exact hsame
   | sendDone tk ok =>
     intro t ht hc
     simp only [step] at ht
@@ -2441,6 +2449,8 @@ theorem told_step {s : State} (op : Op) (h : SInv s) (hw : NoWrap (step s op).1)
   | serverClosing => exact told_of_rids _ (fun r' hr' => ⟨r', hr', rfl⟩)
   | jump d => exact told_of_rids _ (fun r' hr' => ⟨r', hr', rfl⟩)
   | gate b => exact told_of_rids _ (fun r' hr' => ⟨r', hr', rfl⟩)
+  | sessionDestroyed => exact told_of_rids _ (fun r' hr' => ⟨r', hr', rfl⟩)
+  | sessionInitialized => exact told_of_rids _ (fun r' hr' => ⟨r', hr', rfl⟩)
   | sendDone tk ok =>
     simp only [step]
     split <;> exact told_of_rids _ (fun r' hr' => ⟨r', hr', rfl⟩)
@@ -2846,6 +2856,8 @@ theorem allGood_step {s : State} (b : Bool) (op : Op) (hi : SInv s) (h : AllGood
   | serverClosing => exact same _ rfl rfl
   | jump d => exact same _ rfl rfl
   | gate g => exact same _ rfl rfl
+  | sessionDestroyed => exact same _ rfl rfl
+  | sessionInitialized => exact same _ rfl rfl
   | sendDone tk ok => simp only [step]; split <;> exact same _ rfl rfl
   | cancelCall tk => simp only [step]; split <;> exact same _ rfl rfl
   | settle => exact allGood_settle b hi.inv h
